@@ -13,9 +13,11 @@ def limit : Nat := 0xFFFF
 
 /-- `sqfs_id_table_id_to_index`: `none` = SQFS_ERROR_OVERFLOW, `some (index, table')` otherwise -/
 def step (lim : Nat) (tbl : List Nat) (id : Nat) : Option (Nat × List Nat) :=
-  if tbl.idxOf id < tbl.length then some (tbl.idxOf id, tbl)          -- the linear search, id_table.c:71-76
-  else if tbl.length = lim then none                                   -- :78
-  else some (tbl.length, tbl ++ [id])                                  -- :81-82
+  let i := tbl.idxOf id
+  let n := tbl.length
+  if i < n then some (i, tbl)                                          -- the linear search, id_table.c:71-76
+  else if n = lim then none                                            -- :78
+  else some (n, tbl ++ [id])                                           -- :81-82
 
 /-- a sequence of calls (two per inode in `serialize_tree_node`), fail-stop; returns table and indices -/
 def addAll (lim : Nat) : List Nat → List Nat → Option (List Nat × List Nat)
